@@ -116,7 +116,7 @@ Proof.
         { intros t i. unfold P, allowed, gate. rewrite D. cbn [negb andb]. exact G. }
         destruct (ds_open d).
         -- destruct (fs path); inversion E; subst; (apply Forall_app; split; [exact R1|repeat constructor; apply O1]).
-        -- inversion E; subst. apply Forall_app; split; [exact R1|repeat constructor; apply O1].
+        -- destruct (fs url); inversion E; subst; (apply Forall_app; split; [exact R1|repeat constructor; apply O1]).
       * inversion E; subst. exact R1.
 Qed.
 
